@@ -243,10 +243,40 @@ class World:
             return self.inst(m.instance_from_unit_vector([x / 4.0 for x in q[1]]))
         if k == "allpaths":
             return [[list(p) for p in g] for g in m.all_paths]
+        if k == "raw":
+            return self.raw(m, q)
         if k == "models":
             cls = object if q[1] is None else self.classes[q[1]]
             return [[[], self.leaf(x)] for x in m.models_with_type(cls, include_zero_dimension=bool(q[2]))]
         raise ValueError(k)
+
+    def raw_call(self, m, q):
+        """the exact object one of the seven frozen_cache functions returns, spelled as the library spells the call"""
+        what = q[1]
+        if what == "pit":
+            if q[2] == "prior":
+                return m.path_instance_tuples_for_class(Prior)
+            if q[2] == "tuple":
+                return m.path_instance_tuples_for_class(TuplePrior)
+            if q[2] == "param":
+                return m.path_instance_tuples_for_class((Prior, float, tuple), ignore_children=True)
+        if what == "attr":
+            return m.attribute_tuples_with_type(Prior)
+        if what == "unique":
+            return m.unique_prior_tuples
+        if what == "direct":
+            return m.direct_tuples_with_type({"prior": Prior, "float": float, "tuple": TuplePrior, "pm": AbstractPriorModel}[q[2]])
+        if what == "mtt":
+            return m.model_tuples_with_type(object if q[2] is None else self.classes[q[2]], include_zero_dimension=bool(q[3]))
+        raise ValueError(q)
+
+    def raw(self, m, q):
+        r = self.raw_call(m, q)
+        if not isinstance(r, list):
+            raise ValueError("not a list")
+        if q[1] == "pit":
+            return [[list(p), self.leaf(x)] for p, x in r]
+        return [[[str(t[0])], self.leaf(t[1])] for t in r]
 
     def shadow(self, m, q):
         try:
